@@ -142,10 +142,12 @@ def step (s : St) : Op → St × Out
     if v < s.nV then
       let x := s.vars v
       let b := s.bcs x.bc
-      -- deepcopy of the BCs (content and flags), ghosted array copied as it is
+      -- deepcopy of the BCs (content and flags), ghosted array copied as it is; the boundary terms
+      -- are built from the BC copy, while `_BCs_applied` and `value.modified` are carried over from
+      -- the original (the copy's ghost layer is outdated iff the original's is)
       let s1 : St := { setBC s s.nB b with nB := s.nB + 1 }
       let w : Var := { bc := s.nB, interior := x.interior, ghostI := x.ghostI, ghostB := x.ghostB,
-                       cache := some b.content, applied := b.content, valMod := false, precalc := true }
+                       cache := some b.content, applied := x.applied, valMod := x.valMod, precalc := true }
       ({ setVar s1 s1.nV w with nV := s1.nV + 1 }, .newVar s1.nV)
     else (s, .invalid)
   | .arith v =>
